@@ -26,6 +26,11 @@ STRENGTHENED = {
     "C17-agent2-3": "would have been MISSED (every custom universe contained the unit columns); caught after the slice of column pools that cannot produce a demanded item was added (on the clean tree solve_cg raises OverflowError there, which presents no plan and is counted as a probe)",
     "C04-agent2-3": "caught as the check stood, because a worker interpreter executes hundreds of cases and the stale memo of one case leaked into a later one; the single-case replay could not reproduce it, which led to the block-prefix replay mode (the replay re-executes the preceding runs of the block)",
     "C09-agent2-2": "caught, but the first evaluation ran for many minutes because every hit burns a 1.5 M event step budget; workers now stop a block after 12 violating runs and the master stops dispatching after 60",
+    "C15-agent3-1": "would have been MISSED (the sound error bound n*tol*d/(1-d) is far too loose); caught after the residual rule (OPTIMAL => residual of one sweep <= 10 tol; the shipped rule stays below 2.5 tol on 40 000 random graphs) and hub-and-spoke graphs up to 70 nodes were added",
+    "C15-agent3-2": "MISSED at first (nodes were always a list); caught after nodes / neighbours are also passed as tuples, iterators and generators",
+    "C19-agent3-2": "would have been MISSED (exponential cooling was always given as a float); caught after schedule objects (incl. exponential_cooling) are built once per case and shared by its runs",
+    "C17-agent3-1": "MISSED at first; caught (1 hit in 12 k quick runs - marginal, thorough is the reliable tier) after duplicated columns and pools without unit columns were generated",
+    "C17-agent3-2": "would have been MISSED (gap_tol was never passed); caught after solve_bp also runs with gap_tol 0.01 / 0.04, values that cannot legitimise a non-minimal plan of <= 20 rolls",
     "C17-agent-3": "MISSED at first (only integer roll widths were generated); caught after fractional roll widths were added",
 }
 WHAT = {}
